@@ -22,7 +22,20 @@ def showSt (s : St) : String :=
 
 def handle (cmd : String) (args : List String) : Option String :=
   match cmd with
-  | "bulke2e" => some (match args.mapM parseLine with
+  | "bulke2e" =>
+    if args.contains "||" then
+      -- concurrent requests: each body is handled independently; the stored set is the union
+      let bodies := (args.foldl (fun (acc : List (List String)) a =>
+        if a == "||" then [] :: acc else match acc with | [] => [[a]] | h :: t => (h ++ [a]) :: t) [[]]).reverse
+      match bodies.mapM (fun b => b.mapM parseLine) with
+      | none => some "bad-op"
+      | some bs =>
+        let sts := bs.map SigModel.Bulk.handle
+        let items := "|".intercalate (sts.map (fun st => String.join (st.items.map (fun | .created => "c" | .failed => "f" | .tooLarge => "t"))))
+        let vids := ((sts.flatMap (·.stored)).filter (· ≠ 0)).eraseDups
+        let sorted := vids.foldr (fun x acc => let (lo, hi) := acc.partition (· < x); lo ++ [x] ++ hi) []
+        some s!"items={items} stored={",".intercalate (sorted.map toString)}"
+    else some (match args.mapM parseLine with
       | some ls =>
         let st := SigModel.Bulk.handle ls
         let items := String.join (st.items.map (fun | .created => "c" | .failed => "f" | .tooLarge => "t"))
